@@ -512,7 +512,7 @@ def main(tier="quick", seed=0, procs=None, only=None):
     run.rule = "pyvc: one case = one function (x optional-argument variant); native: one evaluation = one (op, flags, mode) or one nesting program"
     cases = [ProtocolCase("no_grad", "gradient__", False), ProtocolCase("retain_grads", "retain_grads__", True)]
     cases += [TargetCase(t) for t in tensor_targets()]
-    cases += [TargetCase(t) for t in wrapper_targets()]
+    cases += [TargetCase(t, allow_outside=("unbind" in t.name)) for t in wrapper_targets()]      # unbind builds a tuple of results in a generator over kernel output
     results = run_catalogue(run, cases, seed=seed, procs=procs)
     outside = [r["name"] + ": " + r.get("unsupported", "") for r in results if r.get("status") == "outside-subset"]
     run.extra["pyvc_targets"] = len(cases)
